@@ -140,19 +140,48 @@ def keysets_differ(a, b):
     return False
 
 
+def _emptyish(j):
+    return j is None or j == [] or j == {}
+
+
+def erase_empty(j):
+    """Model/Json.v erase_empty: members that are null / an empty collection (after erasing inside) are dropped"""
+    if isinstance(j, list):
+        return [None if _emptyish(y) else y for y in (erase_empty(x) for x in j)]
+    if isinstance(j, dict):
+        out = {}
+        for k, v in j.items():
+            v = erase_empty(v)
+            if not _emptyish(v):
+                out[k] = v
+        return out
+    return j
+
+
+def same_mod_empty(a, b):
+    """Model/Json.v json_eq_mod_empty (the comparison of the law equals_implies_encode_eq_mod_empty)"""
+    a, b = erase_empty(a), erase_empty(b)
+    return srcgen.json_same(None if _emptyish(a) else a, None if _emptyish(b) else b)
+
+
 def map_keys_heuristic(result):
+    """every pair that breaks symmetry / equals_implies_encode_eq_mod_empty has, somewhere at corresponding
+    positions of the two encodings, maps of one size with different key sets: the root cause read off the
+    observed encodings alone (used whether or not the case is modelled)"""
     encs = [x["enc"] if x["std"] == "ok" else None for x in result["res"]] + \
            [x["senc"] if x["strict"] == "ok" else None for x in result["res"]]
     eq = result["eq"]
     n = len(encs)
+    seen = False
     for i in range(n):
         for j in range(n):
             if encs[i] is None or encs[j] is None:
                 continue
-            odd = (eq[i][j] != eq[j][i]) or (eq[i][j] == "t" and not srcgen.json_same(encs[i], encs[j]))
+            odd = (eq[i][j] != eq[j][i]) or (eq[i][j] == "t" and not same_mod_empty(encs[i], encs[j]))
             if odd and not keysets_differ(encs[i], encs[j]):
                 return False
-    return True
+            seen = seen or odd
+    return seen
 
 
 ODD_OFFSET = re.compile(r"\d\d:\d\d:\d\d(\.\d+)?[+-]\d\d:(?!00)\d\d\"")
@@ -268,7 +297,7 @@ def run(ctx, verdict, replay=None, model_ok=True):
                 continue
             job = camp.jobs[i]
             if law in ("symmetric", "transitive", "equals_implies_encode_eq_mod_empty"):
-                causes = ["map-key-sets-differ" if (i in by_map or (i in unm0 and map_keys_heuristic(camp.results[i]))) else "other"]
+                causes = ["map-key-sets-differ" if (i in by_map or map_keys_heuristic(camp.results[i])) else "other"]
             elif law == "encode_eq_implies_equals":
                 causes = classify_enc_eq(job, camp.results[i])
             else:
